@@ -133,7 +133,7 @@ def c06b(ctx, tu):
 
 
 def c06c(ctx, tu):
-    protocol.report(ctx, tu, lambda r: r in ("C06.c", "C05.d.3"))
+    protocol.report(ctx, tu, lambda r: True)   # the whole step protocol is a premise of this property
     # on release: the intrusive node's destructor unlinks on every path (C14.d shares this)
     for fn in tu.need("trompeloeil::list_elem::~list_elem", 3):
         ul = cfg.find_events(fn, lambda e: e["e"] == "call" and qe(e) == A["unlink"])
